@@ -146,6 +146,18 @@ impl Prop for PPipe {
         let roots = vec![json!({"spell": str_to_json(&spell), "node": 1})];
         let cfg = json!({"mode": *rng.pick(&["P", "P", "H", "L"]), "min": if rng.chance(1, 4) { 1 } else { 0 }, "max": super::pwalk::NOMAX, "depth": rng.chance(1, 5), "sorted": true, "prune": []});
         let pre = if rng.chance(1, 4) { json!({"p": "type", "c": "f"}) } else { json!({"p": "none"}) };
+        // now and then the starting point is a symbolic link to the directory: what is printed is the link as spelled
+        // (also under -H -depth, where find walks the link's target from another spelling of its own making)
+        if rng.chance(1, 6) {
+            let k = tree.len() + 1;
+            tree.push(json!({"parent": 0, "name": str_to_json("the link"), "kind": "l", "target": 1}));
+            let mut cfg = cfg.clone();
+            cfg["mode"] = json!(*rng.pick(&["H", "H", "L", "P"]));
+            // (with a trailing slash the operating system resolves the link itself, whatever the mode)
+            let lspell = if cfg["mode"] == "P" { *rng.pick(&["the link", "./the link"]) } else { *rng.pick(&["the link", "./the link", "the link/"]) };
+            cfg["depth"] = json!(rng.chance(1, 2));
+            return json!({"tree": tree, "roots": [{"spell": str_to_json(lspell), "node": k}], "cfg": cfg, "pre": pre});
+        }
         json!({"tree": tree, "roots": roots, "cfg": cfg, "pre": pre})
     }
 
